@@ -405,6 +405,34 @@ func runC07() {
 		nShapes = 40000
 	}
 	sigShapes(r, goOnly, nShapes)
+	// the transaction-dependent opcodes WITHOUT a transaction (scripts only) and with a transaction but no previous
+	// output, each with operands that would carry it all the way to the digest (a signature that parses, a key on the
+	// curve, counts that fit): the call is refused, it does not reach for the transaction
+	{
+		g1 := common.Unhex("0279be667ef9dcbbac55a06295ce870b07029bfcdb2dce28d959f2815b16f81798")
+		sig := common.Unhex("30060201010201010101")
+		for _, op := range []byte{0xac, 0xad, 0xae, 0xaf, 0xb2, 0xb1} {
+			var unlock, lock []byte
+			switch op {
+			case 0xac, 0xad:
+				unlock, lock = interpgen.Push(sig), append(interpgen.Push(g1), op, 0x51)
+			case 0xae, 0xaf:
+				unlock = append([]byte{0x00}, interpgen.Push(sig)...)
+				lock = append(append([]byte{0x51}, interpgen.Push(g1)...), 0x51, op, 0x51)
+			default:
+				unlock, lock = []byte{0x51}, []byte{op, 0x51}
+			}
+			for _, fl := range []uint32{0, interpgen.FGenesis, interpgen.FForkID | interpgen.FGenesis, interpgen.FCLTV | interpgen.FCSV} {
+				for ctxKind := 0; ctxKind < 2; ctxKind++ {
+					p := &interpgen.Program{Unlock: append([]byte{}, unlock...), Lock: append([]byte{}, lock...), Flags: fl, Kind: "tx-opcode-without-context"}
+					if ctxKind == 1 {
+						p.HasTx, p.HasPrev, p.TxVersion, p.InSeq = true, false, 2, 0xfffffffe
+					}
+					emitOrGoOnly(p.Fix())
+				}
+			}
+		}
+	}
 	// arbitrary byte strings as scripts
 	for i := 0; i < nRand; i++ {
 		p := &interpgen.Program{Unlock: r.Bytes(r.Intn(12)), Lock: r.Bytes(r.Intn(40)), Flags: uint32(r.U64() & 0xffff), Kind: "random-bytes"}
